@@ -99,7 +99,26 @@ WRAPPERS = {"list", "str", "tuple", "reversed", "sorted", "iter", "next"}
 NULLABLE_ATTRS = {"segment", "line", "_search_link", "_search_duplicate",
                   "match", "search", "fullmatch"}
 
-# reviewed sites that the walk cannot discharge; key = (function, construct)
+def canon(f, node):
+    """source text of `node` with the local variables of function `f` (names
+    it binds, parameters excepted) written `_`: reviewed-site keys must not
+    depend on how a loop counter is called"""
+    import copy
+    params = set(f.params) | {f.self_name}
+    local = set()
+    for n in ast.walk(f.node):
+        if isinstance(n, ast.Name) and isinstance(n.ctx, ast.Store):
+            local.add(n.id)
+    local -= params
+    node = copy.deepcopy(node)
+    for n in ast.walk(node):
+        if isinstance(n, ast.Name) and n.id in local:
+            n.id = "_"
+    return unparse(node)
+
+
+# reviewed sites that the walk cannot discharge; key = (function, construct
+# with local names written `_`, see canon)
 SAFE = {
     ("line.common.construction.Construction._init_comment_data",
      "index:data[0]"):
@@ -114,7 +133,7 @@ SAFE = {
         "for text input strings is the 3-element list built by "
         "_init_comment_data",
     ("line.custom_record.construction.Construction."
-     "_delayed_initialize_positional_fields", "index:strings[i]"):
+     "_delayed_initialize_positional_fields", "index:strings[_]"):
         "i < n_positional_fields = first_tag <= len(strings), computed by "
         "the only caller (_initialize_tags)",
 }
@@ -1057,8 +1076,9 @@ def run(ctx):
                                               frozenset())
                 if good:
                     ok = why
-            if ok is None and (f.short, construct) in SAFE:
-                ok = "reviewed: " + SAFE[(f.short, construct)]
+            ckey = "%s:%s" % (s["kind"], canon(f, s["node"])[:60])
+            if ok is None and (f.short, ckey) in SAFE:
+                ok = "reviewed: " + SAFE[(f.short, ckey)]
             ctx.oblige(ok is not None)
             ctx.sample({"function": f.short, "site": construct,
                         "discharged_by": ok}, limit=400)
@@ -1098,7 +1118,7 @@ def run(ctx):
              "from different fields of the input", floor=1)
     REVIEWED_CROSS = {
         ("line.group.path.captured_path.CapturedPath.captured_path",
-         "self.links[i]"):
+         "self.links[_]"):
             "links is built by _initialize_links with one link per "
             "consecutive pair of segment_names (and one more for a circular "
             "path); the loop stops at len(segment_names) - 1",
@@ -1142,7 +1162,7 @@ def run(ctx):
                     b = unparse(n.value)
                     ctx.instance(R)
                     ok = b in lens or b in guarded or in_try or \
-                        (f.short, unparse(n)) in REVIEWED_CROSS
+                        (f.short, canon(f, n)) in REVIEWED_CROSS
                     ctx.oblige(ok)
                     if not ok:
                         ctx.violation(
